@@ -630,6 +630,9 @@ impl C08 {
                 b"a: &x [1, 2]\nb: *x\n", b"a: &x {k: 1}\nb:\n  <<: *x\n  j: 2\n", b"? [complex, key]\n: value\n", b"a: !!binary aGVsbG8=\n", b"a: !Ref b\nc: !GetAtt d.e\nf: !Sub '${g}'\n",
                 b"a: .inf\nb: -.inf\nc: .nan\nd: 0x1F\ne: 0o17\nf: 1_000\ng: 2001-12-14t21:59:43.10-05:00\n", b"a: 123456789012345678901234567890\nb: 1e999\nc: -0\n",
                 b"{\"a\": 123456789012345678901234567890, \"b\": 1e999, \"c\": -0.0}", b"a: |\n  line1\n  line2\nb: >-\n  folded\n  text\n", b"%YAML 1.2\n---\na: 1\n", b"\ta: 1\n",
+                b"a: !Cidr [\"10.0.0.0/16\", 4, 8]\n", b"a: !Join [\",\", [x, y]]\nb: !Select [0, !GetAZs \"\"]\n", b"a: !Foo []\nb: !Foo {k: v}\nc: !Foo bar\n", b"a: !If [c, x, y]\nb: !Equals [x, y]\nc: !And [x]\nd: !Not [x]\ne: !Or [x, y]\n",
+                b"a: !FindInMap [m, k1, k2]\nb: !Split [\",\", \"x,y\"]\nc: !ImportValue v\nd: !Base64 text\ne: !Length [1, 2]\nf: !ToJsonString {k: v}\n", b"Resources:\n  A:\n    Type: AWS::X::Y\n    Properties:\n      P: !Cidr [x, 1, 2]\n      Q: !Ref R\n      S: !GetAtt [A, Arn]\n      T: !Sub [\"${v}\", {v: 1}]\n",
+                b"- !Foo [1]\n- !Ref x\n", b"!Foo [1, 2]\n", b"a: !<tag:yaml.org,2002:seq> [1]\nb: !!seq [1]\nc: !!map {k: v}\nd: !!str 5\ne: !!int \"5\"\nf: !!float 1\ng: !!null null\nh: !!bool yes\n",
                 b"Resources: 7\n", b"Resources: []\n", b"Resources:\n  A: 5\n", b"Resources:\n  A:\n    Properties:\n      P: 1\n", b"Resources:\n  A:\n    Type: 5\n    Properties:\n      P: 1\n",
                 b"Resources:\n  A:\n    Type: [a]\n    Properties: {P: {Q: [1, {R: null}]}}\n", b"Resources:\n  A:\n    Type: AWS::X::Y\n    Properties: [1, 2]\n", b"{\"Resources\": {\"A\": {\"Type\": \"AWS::X::Y\", \"Properties\": {\"P\": \"a\\nb\", \"Q\": \"\\\"q\\\"\"}}}}",
             ];
